@@ -369,6 +369,20 @@ def rule_hof_order(ctx: Ctx) -> None:
         ctx.fail("hof.order", m, l.iter, f"update_hof scans hall-of-fame positions as `{short(l.iter)}`; inserting before the first larger score "
                                          f"keeps the list ordered only when positions are scanned in ascending order", func="RandomSearchSolver.update_hof",
                  construct=f"update_hof: scan {short(l.iter, 40)}")
+    # `a, b = self.hof[i]` in the scanned loop names the entry's score and circuit: read the names as the components they stand for
+    import copy as _copy
+    from ..core import _Subst
+    unpack = {}
+    for a_ in ast.walk(l):
+        if isinstance(a_, ast.Assign) and len(a_.targets) == 1 and isinstance(a_.targets[0], ast.Tuple) and norm(a_.value) == f"self.hof[{iv}]" \
+                and all(isinstance(t_, ast.Name) for t_ in a_.targets[0].elts):
+            for k_, t_ in enumerate(a_.targets[0].elts):
+                rebound = sum(1 for n_ in ast.walk(l) if isinstance(n_, ast.Name) and isinstance(n_.ctx, ast.Store) and n_.id == t_.id)
+                if rebound == 1:
+                    unpack[t_.id] = ast.parse(f"self.hof[{iv}][{k_}]", mode="eval").body
+
+    def _rd(e):
+        return _Subst(unpack).visit(_copy.deepcopy(e)) if unpack and e is not None else e
     for c in ins:
         pos_ok = norm(c.args[0]) == iv
         guard = None
@@ -377,12 +391,13 @@ def rule_hof_order(ctx: Ctx) -> None:
                 guard = a.test
                 break
         # strict-improvement branch: score < hof[i][0]
+        guard = _rd(guard)
         txt = norm(guard) if guard is not None else ""
         # the inserted entry names the new score and the new circuit: self.hof.insert(i, (<score>, <circuit>.copy()))
         ent = c.args[1] if len(c.args) > 1 else None
         if not (isinstance(ent, ast.Tuple) and len(ent.elts) == 2):
             raise AnalysisError(f"update_hof: inserted entry `{short(c)}` is not a (score, circuit) pair")
-        sc = norm(ent.elts[0])
+        sc = norm(_rd(ent.elts[0]))
         ce = _block_value(c, ent.elts[1])
         if isinstance(ce, ast.IfExp):
             ce = ce.body
@@ -401,6 +416,11 @@ def rule_hof_order(ctx: Ctx) -> None:
             return (isinstance(g.ops[0], ast.Lt) and (a_, b_) == (new_, old_)) or (isinstance(g.ops[0], ast.Gt) and (a_, b_) == (old_, new_))
         tie = _shorter(guard) and any(
             isinstance(a, ast.If) and "isclose" in norm(a.test) and any(c is x for b in a.body for x in ast.walk(b)) for a in _anc(c))
+        if tie and sc == f"self.hof[{iv}][0]":
+            ctx.fail("hof.order", m, c, f"`{short(c)}` stores the displaced entry's score `{norm(ent.elts[0])}` with the new circuit: the scores are only close "
+                                        f"(np.isclose), not equal, so the entry's stored score is no longer the score its circuit was evaluated with",
+                     func="RandomSearchSolver.update_hof", construct="update_hof: tie-break stores the old entry's score")
+            continue
         if pos_ok and (strict or tie):
             ctx.ok("hof.order", m, c, what="insert at the scanned position under `score < hof[i][0]` / tie-break")
         else:
